@@ -399,6 +399,20 @@ proof fn lemma_layout_root_mean_sq_err<A: AddAssign + Clone + Signed + ToPrimiti
         vstd::seq_lib::lemma_fold_left_permutation(p2, zip_seq(a1@, b1@), sq_f::<A>(), A::zero_spec());
     }
 }
+proof fn lemma_layout_peak_signal_to_noise_ratio<A: AddAssign + Clone + Signed + ToPrimitive, D: Dimension>(a1: ArrayN<A, D>, a2: ArrayN<A, D>, b1: ArrayN<A, D>, b2: ArrayN<A, D>, maxv: A, r1: Result<f64, MultiInputError>, r2: Result<f64, MultiInputError>)
+    requires
+        same_logical(&a1, &a2), same_logical(&b1, &b2), vstd::seq_lib::commutative_foldl(sq_f::<A>()),
+        call_ensures(ArrayN::<A, D>::peak_signal_to_noise_ratio, (&a1, &b1, maxv), r1), call_ensures(ArrayN::<A, D>::peak_signal_to_noise_ratio, (&a2, &b2, maxv), r2),
+    ensures same_answer(r1, r2), // [C20]
+{
+    if r1 is Ok && r2 is Ok {
+        let mv = maxv.to_f64_spec()->Some_0;
+        let p1 = choose|ps: Seq<(A, A)>| #[trigger] visits_all(ps, a1@, b1@) && r1->Ok_0 == f64_mul(10.0f64, f64_log10(f64_div(f64_mul(mv, mv), f64_div(ps.fold_left(A::zero_spec(), sq_f::<A>()).to_f64_spec()->Some_0, usize_as_f64(a1@.len() as usize)))));
+        let p2 = choose|ps: Seq<(A, A)>| #[trigger] visits_all(ps, a2@, b2@) && r2->Ok_0 == f64_mul(10.0f64, f64_log10(f64_div(f64_mul(mv, mv), f64_div(ps.fold_left(A::zero_spec(), sq_f::<A>()).to_f64_spec()->Some_0, usize_as_f64(a2@.len() as usize)))));
+        vstd::seq_lib::lemma_fold_left_permutation(p1, zip_seq(a1@, b1@), sq_f::<A>(), A::zero_spec());
+        vstd::seq_lib::lemma_fold_left_permutation(p2, zip_seq(a1@, b1@), sq_f::<A>(), A::zero_spec());
+    }
+}
 
 } // verus!
 fn main() {}
